@@ -36,9 +36,18 @@ def gen_case(seed, i):
     world, roots = gen.gen_world(rng, cfg, nroots=nroots, hostile=rng.random() < 0.4,
                                  max_files=rng.choice([6, 12, 24]), families=rng.randint(1, 5))
     if cfg.get("transform"):
+        cfg["cache"] = rng.random() < 0.5          # warm-cache runs matter most with transforms
         for e in world.entries:
             if e["t"] == "f":
                 e["c"]["text"] = 1
+        # members of one transformed class with DIFFERENT raw sizes: same family, longer file
+        # (a family stream of length n is a prefix of the stream of length m > n)
+        extra = []
+        for e in world.entries:
+            if e["t"] == "f" and not e["c"].get("flips") and rng.random() < 0.4 and len(extra) < 4:
+                c2 = dict(e["c"]); c2["len"] = e["c"]["len"] + rng.choice([1, 3, 50])
+                extra.append({"t": "f", "p": e["p"] + ".longer%d" % len(extra), "c": c2, "mt": e.get("mt")})
+        world.entries += extra
     rootargs = list(roots)
     r = rng.random()
     if r < 0.1:
